@@ -79,7 +79,8 @@ class Lens(ScatteringTheory):
                                                          integral_r,
                                                          pol_angle)
 
-        particle_kz = positions[2, 0]  # we assume a fixed z
+        # the integrand already uses each point's own z; so must the phase
+        particle_kz = positions[2]
         fields *= self._compute_field_phase(particle_kz)
         return fields
 
